@@ -495,6 +495,52 @@ def main():
                 else:
                     ck.count('shapely-written text read back')
     ck.cov['shapely_agreement'] = agree
+    # ---- 4b. the Shapely bridge as a round trip: Type.from_shapely(shape.to_shapely()) is the shape again, for coordinates
+    # with every number of decimals the writer can emit (mechanism class: any precision loss / reformatting inside the bridge).
+    # 2-D simple shapes (the bridge drops nothing else); judged by == both ways and by exact ordinate comparison.
+    from geostructures.collections import FeatureCollection
+    def _nudge(v, j):
+        return v + [0.0, 0.1234567, 0.000000123, 0.03648231234567, 1e-9, 0.5000004999][j % 6]
+    bridge_n = 0
+    for j in range(6 if ck.tier == 'quick' else 24):
+        built = []
+        for spec in fixed_shapes():
+            sp = copy.deepcopy(spec)
+            def mv(c):
+                return (_nudge(c[0], j), _nudge(c[1], j + 1), None)
+            for key in ('c',):
+                if key in sp:
+                    sp[key] = mv(sp[key])
+            if 'vs' in sp:
+                sp['vs'] = [mv(c) for c in sp['vs']]
+            if 'cs' in sp:
+                sp['cs'] = [mv(c) for c in sp['cs']]
+            if 'ls' in sp:
+                sp['ls'] = [[mv(c) for c in l] for l in sp['ls']]
+            def mvp(pp):
+                pp['o'] = [mv(c) for c in pp['o']]
+                for h in pp.get('holes', []):
+                    h['o'] = [mv(c) for c in h['o']]
+            if 'o' in sp:
+                mvp(sp)
+            for pp in sp.get('ps', []):
+                mvp(pp)
+            sp.setdefault('dt', None); sp.setdefault('props', None)
+            obj = G.build(sp)
+            built.append(obj)
+            back = run_impl(lambda: SIMPLE[sp['kind']].from_shapely(obj.to_shapely()))
+            bridge_n += 1
+            ok = back[0] == 'Ok' and back[1] == obj and obj == back[1] and back[1].to_wkt() == obj.to_wkt()
+            if not ok:
+                pyviol.append(({'op': 'shapely-bridge', 'kind': sp['kind'], 'spec': sp, 'text': obj.to_wkt()[:300]}, 'shapely_bridge',
+                               f'{type(obj).__name__}.from_shapely(shape.to_shapely()) is not the shape: '
+                               f'{back[1].to_wkt()[:200] if back[0] == "Ok" else back}'))
+        coll = run_impl(lambda: FeatureCollection.from_shapely(shapely.GeometryCollection([o.to_shapely() for o in built])))
+        bridge_n += 1
+        if coll[0] != 'Ok' or list(coll[1].geoshapes) != built:
+            pyviol.append(({'op': 'shapely-bridge', 'kind': 'collection', 'text': '; '.join(o.to_wkt()[:60] for o in built)}, 'shapely_bridge',
+                           'FeatureCollection.from_shapely(GeometryCollection of the shapes) does not give the shapes back'))
+    ck.cov['shapely_bridge_round_trips'] = bridge_n
 
     # ---- 5. malformed stream: fixed special texts x every reader; every single-character corruption of valid texts
     for text in SPECIAL_TEXTS:
